@@ -72,6 +72,9 @@ PROP = [  # (subject fragment, property, also)
  ("columnar SUM/AVG over integers accumulate exactly", "C24", "C03"),
  ("TRIM with an empty trim string returns its argument", "C24", ""),
  ("ON DUPLICATE KEY UPDATE col = col + n reports integer overflow", "C24", ""),
+ ("DELETE fails when its WHERE clause is denied access", "C26", ""),
+ ("bulk transfer checks the SELECT privilege on the source table", "C26", ""),
+ ("text-based query signature keeps string literals as written", "C25", ""),
 ]
 def main():
     root = sys.argv[1] if len(sys.argv) > 1 else "/verif"
